@@ -20,6 +20,8 @@ type gateSet struct {
 	open  bool // open mode: every present and future gate is open
 	// sends whose events are held at EVERY node (overlap scenario): send id -> release channel
 	heldSends map[string]chan struct{}
+	// thresholds configured for type t0 (re-applied by the overlap scenario's setter calls)
+	thr, thrSinks int
 }
 
 // holdSend makes every node park events of the given Send until release is called.
@@ -157,6 +159,15 @@ func buildC03World(r *rt.Rand, gs *gateSet) (*World, []string) {
 			panic(out.Mismatch)
 		}
 		desc = append(desc, d)
+	}
+	// success thresholds, often unmet (they decide nothing about termination, but the collector's exit
+	// paths depend on them)
+	if r.Intn(3) > 0 {
+		thr, ts := r.Intn(np+2), r.Intn(np+2)
+		w.B.SetSuccessThreshold("t0", thr)
+		w.B.SetSuccessThresholdSinks("t0", ts)
+		gs.thr, gs.thrSinks = thr, ts
+		desc = append(desc, fmt.Sprintf("thresholds=%d/%d", thr, ts))
 	}
 	return w, desc
 }
@@ -477,8 +488,8 @@ func c03Overlap(run *rt.Run, w *World, gs *gateSet, cr *rt.Rand, desc []string) 
 	setDone := make(chan struct{})
 	go func() {
 		defer close(setDone)
-		w.B.SetSuccessThreshold("t0", 0)
-		w.B.SetSuccessThresholdSinks("t0", 0)
+		w.B.SetSuccessThreshold("t0", gs.thr)
+		w.B.SetSuccessThresholdSinks("t0", gs.thrSinks)
 	}()
 	if cr.Bool() {
 		time.Sleep(time.Duration(cr.Intn(300)) * time.Microsecond)
